@@ -3,6 +3,9 @@ package main
 func checkLemmas(w *World, ps *PropSpec, tier string, seed int) []*Result {
 	rs := checkImmutable(w)
 	for _, l := range ps.Lemmas {
+		if l == "isolation" {
+			rs = append(rs, checkIsolation(w)...)
+		}
 		if l == "determinism" {
 			rs = append(rs, checkDeterminism(w, []string{"parser", "ast", "symtable", "compile"})...)
 		}
